@@ -25,14 +25,18 @@ KeyMap(artist, k) ==
     [] artist = "Patch" -> (CASE k = "color" -> "edgecolor" [] OTHER -> k)
 Removed(artist) == IF artist = "Text" THEN {"linewidth"} ELSE {"fontname", "fontsize", "fontweight", "fontstyle"}
 VisualKeys(artist) == CASE artist = "Patch" -> {"color", "linewidth"} [] artist = "Line2D" -> {"color", "symsize"} [] artist = "Text" -> {"color", "fontsize", "textangle"}
-CallerKeys(artist) == CASE artist = "Patch" -> {"edgecolor", "linewidth"} [] artist = "Line2D" -> {"markeredgecolor", "markersize", "color"} [] artist = "Text" -> {"color", "size", "rotation"}
+CallerKeys(artist) == CASE artist = "Patch" -> {"edgecolor", "linewidth"} [] artist = "Line2D" -> {"markeredgecolor", "markersize", "color"} [] artist = "Text" -> {"color", "size", "rotation", "fontsize"}
 Translate(vis, artist) ==
   LET ks == {k \in DOMAIN vis : KeyMap(artist, k) \notin Removed(artist) /\ k \notin Removed(artist)}
   IN [m \in {KeyMap(artist, k) : k \in ks} |-> vis[CHOOSE k \in ks : KeyMap(artist, k) = m]]
 (* a point is drawn as a marker; its stored colour becomes the marker edge colour.  A colour given by the caller is the colour of the marker *)
 (* as well, unless the caller names the marker edge colour itself: the stored (or default) marker edge colour gives way to it               *)
-Merge(style, artist, vis, caller) ==
-  LET base == Override(Defaults(style, artist), Translate(vis, artist))
+(* the caller may write a keyword by any name matplotlib accepts for it (fontsize for size): it is the same keyword *)
+CanonKey(artist, k) == IF artist = "Text" /\ k = "fontsize" THEN "size" ELSE k
+CanonCaller(artist, caller) == [m \in {CanonKey(artist, k) : k \in DOMAIN caller} |-> caller[CHOOSE k \in DOMAIN caller : CanonKey(artist, k) = m]]
+Merge(style, artist, vis, caller0) ==
+  LET caller == CanonCaller(artist, caller0)
+      base == Override(Defaults(style, artist), Translate(vis, artist))
       base2 == IF artist = "Line2D" /\ "color" \in DOMAIN caller /\ "markeredgecolor" \notin DOMAIN caller
                THEN [k \in DOMAIN base \ {"markeredgecolor"} |-> base[k]] ELSE base
   IN Override(base2, caller)
@@ -43,16 +47,17 @@ vars == <<artist, style, vis, caller, res, pc>>
 Subfuncs(keys, tag) == UNION {[S \cup {"zz"} -> {tag}] : S \in SUBSET keys}
 Init == /\ artist \in Artists /\ style \in Styles /\ res = Empty /\ pc = "call"
         /\ vis \in Subfuncs(VisualKeys(artist), "V") /\ caller \in Subfuncs(CallerKeys(artist), "C")
+        /\ ~({"size", "fontsize"} \subseteq DOMAIN caller)          \* (both names at once is the caller's own error)
 Make == pc = "call" /\ pc' = "ret" /\ res' = Merge(style, artist, vis, caller) /\ UNCHANGED <<artist, style, vis, caller>>
 Next == Make
 Spec == Init /\ [][Next]_vars
 Done == pc = "ret"
 (* caller kwargs override every stored visual attribute and every default *)
-CallerWins == Done => \A k \in DOMAIN caller : res[k] = "C"
+CallerWins == Done => \A k \in DOMAIN caller : res[CanonKey(artist, k)] = "C"
 CallerColourShows == Done /\ artist = "Line2D" /\ "color" \in DOMAIN caller /\ "markeredgecolor" \notin DOMAIN caller => MarkerColour(res) = "C"
 (* stored visual attributes override the style defaults *)
 VisualBeatsDefault == Done => \A k \in DOMAIN vis : LET m == KeyMap(artist, k) IN
-                          (m \in DOMAIN res /\ m \notin DOMAIN caller) => res[m] = "V"
+                          (m \in DOMAIN res /\ m \notin DOMAIN CanonCaller(artist, caller)) => res[m] = "V"
 DefaultsRemain == Done => \A k \in DOMAIN Defaults(style, artist) :
                       k \in DOMAIN res \/ (k = "markeredgecolor" /\ artist = "Line2D" /\ "color" \in DOMAIN caller)
 =============================================================================
